@@ -22,6 +22,7 @@ func TestVerifReplay(t *testing.T) {
 		"VerifC07AcceptThorough":   VerifC07AcceptThorough,
 		"VerifC07AcceptV1":         VerifC07AcceptV1,
 		"VerifC07XSign":            VerifC07XSign,
+		"VerifC07BlockPath":        VerifC07BlockPath,
 		"VerifC07AccountInitiator": VerifC07AccountInitiator,
 		"VerifC05Quick":            VerifC05Quick,
 		"VerifC17Walks2":           VerifC17Walks2,
